@@ -3,7 +3,7 @@
    Model/Engines.v (entry points, .aux files, READ) over Model/Bst.v (the interpreter) and
    Model/Citations.v (citation resolution). *)
 From Pybtex Require Import Base.Prelude Base.PyChar Base.PyStr Model.BibtexStr Model.Wrap Model.Bst Model.Citations Model.Engines
-  Proofs.EnginesSort Proofs.Engines Proofs.EnginesExec Proofs.EnginesMeta Proofs.EnginesOrder Proofs.EnginesProbe Proofs.EnginesAux Proofs.EnginesItems Proofs.EnginesCli.
+  Proofs.EnginesSort Proofs.Engines Proofs.EnginesExec Proofs.EnginesMeta Proofs.EnginesOrder Proofs.EnginesProbe Proofs.EnginesAux Proofs.EnginesItems Proofs.EnginesCli Proofs.EnginesTable.
 From Pybtex Require Model.Aux.
 From Coq Require Import Permutation Sorted.
 
@@ -270,6 +270,20 @@ Theorem style_code_is_stable : forall fmt_name cw fuel st p st',
   exec fmt_name cw fuel st p = Ok st' -> keeps st st'.
 Proof. exact exec_keeps. Qed.
 Print Assumptions style_code_is_stable.
+
+(* The program-to-variable-table link for items_per_citation: a FUNCTION command of the style program is what the
+   variable table holds under that name after any later commands (every declaring command goes through add_variable,
+   a bound name cannot be re-declared), and from the start of a run write$ / cite$ stay the built-ins -- so at the
+   final ITERATE the hypotheses `has_code` / `good_call` of items_per_citation can be read off the program text. *)
+Theorem function_stays_in_table : forall fmt_name cw fuel pre nm body post st0 st,
+  run fmt_name cw fuel st0 (pre ++ Cmd nm_function [[IId nm]; body] :: post) = Ok st ->
+  alookup str_eqb (lower nm) (st_vars st) = Some (OFun body).
+Proof. exact function_in_table. Qed.
+Print Assumptions function_stays_in_table.
+Theorem interpreter_has_its_code : forall fmt_name cw fuel cs cites reads st,
+  run fmt_name cw fuel (initial_state cites reads) cs = Ok st -> has_code (st_vars st) st.
+Proof. exact table_has_code. Qed.
+Print Assumptions interpreter_has_its_code.
 
 (* End to end for one concrete non-sorting style,
      ENTRY {title} {} {}  FUNCTION {f} { cite$ write$ newline$ }  READ  ITERATE {f} :
